@@ -22,13 +22,16 @@ LEAN_PROPS = ["NmlVerif.Props.C17", "NmlVerif.Props.C17Graph", "NmlVerif.Props.C
 EXTRA_THEOREMS = ["NmlVerif.PyHeap.deepcopy_spec", "NmlVerif.PyHeap.visit_spec", "NmlVerif.PyHeap.deepcopy_total",
                   "NmlVerif.PyHeap.CopySpec.new_refs", "NmlVerif.PyHeap.CopySpec.copy_of", "NmlVerif.PyHeap.CopySpec.injective",
                   "NmlVerif.FixExternalH.fixSlot_spec", "NmlVerif.FixExternalH.fixInPlace_spec",
-                  "NmlVerif.FixExternalH.cellsStable_of_copy", "NmlVerif.FixExternalH.cellsStable_of_wf",
+                  "NmlVerif.FixExternalH.copy_allCells_new", "NmlVerif.FixExternalH.allCells_range_of_wf",
                   "NmlVerif.FixIR.hand_fix_run", "NmlVerif.FixIR.rest_run", "NmlVerif.FixIR.fixSlot_run",
-                  "NmlVerif.FixIR.forItems_sim"]
+                  "NmlVerif.FixIR.forItems_sim",
+                  "NmlVerif.FixExternal.cellsOnly_resolved", "NmlVerif.FixExternal.cellsOnly_independent",
+                  "NmlVerif.FixExternal.cellsOnly_no_overwrite_equiv", "NmlVerif.FixExternal.cellsOnly_keyerror_at_first_dangling",
+                  "NmlVerif.FixExternal.cellsOnly_no_overwrite_frame", "NmlVerif.FixExternal.cellsOnly_every_cell_partial"]
 LEVEL = "proof"
-RULE = ("random documents: 0-5 cells (thorough 0-8) + 0-2 Cell2CaPools, per cell and kind one of {nothing, embedded, "
+RULE = ("random documents: 0-5 cells (thorough 0-8) + 0-2 Cell2CaPools (cells like the others since the repair), per cell and kind one of {nothing, embedded, "
         "embedded+attribute, reference to a local / included / nested-included / undefined id}, 0-3 local definitions and "
-        "0-3 included files - XML or HDF5 (.nml.h5 / .h5, read with optimized=True) - (ids collide on purpose: same id locally "
+        "0-3 included files - XML or HDF5 (.nml.h5 / .h5, with or without a network, read with optimized=True) - (ids collide on purpose: same id locally "
         "and in files, in two included files, twice in one list, same id for both kinds; ids that are not text: '' / 0 / 5 vs '5' / "
         "a definition without id), hrefs plain / './' / 'sub/' / '../' / absolute / missing, two working directories, objects built "
         "by constructors / read back from a file (parent_object_, shared gds_collector_) / mixed / aliased / object GRAPHS (one "
@@ -53,7 +56,7 @@ ASSUMPTIONS = [
     "heap' where stated (c17g_overwrite_frame, c17g_copies_independent_overwrite); tree theorems (Props/C17.lean): doc.ids.Nodup",
     "what the heap model does not see: objects that are neither generateDS/neuroml objects, lists, dicts nor lxml elements are opaque "
     "primitives; attributes whose value is None are omitted except the seven the function reads or writes",
-    "every <include> of the document names a readable NeuroML file (XML, or HDF5 that holds a network), else the loader calls "
+    "every <include> of the document names a readable NeuroML file (XML or HDF5, with or without a network), else the loader calls "
     "sys.exit() (modelled, theorem c17_unreadable_include; outside the property); includes of included files are not followed by the function",
     "ids are compared the way Python compares them for str / int / None (bool, float ids are not generated)",
 ]
@@ -157,10 +160,11 @@ def materialise(case, root):
     for f in case["files"]:
         h5 = f["path"].endswith(".h5")
         doc = mk_doc({"id": "inc", "includes": f.get("includes", []), "morphs": f["morphs"], "bios": f["bios"],
-                      "cells": f.get("cells", [])}, root, with_net=h5)
+                      "cells": f.get("cells", [])}, root, with_net=(h5 and f.get("net", True)))
         p = os.path.join(root, f["path"])
         if h5:
-            # the HDF5 loader (optimized=True) needs a network in the file
+            # with or without a network in the file (before fixes/C07-parser-builder-reuse.patch the optimized HDF5 loader
+            # raised AttributeError on a file without one)
             import contextlib
             import io
             with contextlib.redirect_stdout(io.StringIO()):
@@ -626,7 +630,10 @@ def templates(case, root, table):
             seen.add(hh)
             if resolve_href(case, table, h) is None:
                 continue
-            d = L.read_neuroml2_file(hh, verbose=False, optimized=True)
+            try:
+                d = L.read_neuroml2_file(hh, verbose=False, optimized=True)
+            except Exception:       # a loader defect (un-repaired tree): the oracle names it, the models see no such file
+                continue
             out.append([hh, {"morphs": [esnap(m) for m in d.morphology],
                              "bios": [esnap(b) for b in d.biophysical_properties]}])
     finally:
@@ -653,7 +660,10 @@ def templates_heap(case, root, table):
             seen.add(hh)
             if resolve_href(case, table, h) is None:
                 continue
-            d = L.read_neuroml2_file(hh, verbose=False, optimized=True)
+            try:
+                d = L.read_neuroml2_file(hh, verbose=False, optimized=True)
+            except Exception:
+                continue
             out.append([enc(hh), heap_of(d)[0]])
     finally:
         os.chdir(old)
@@ -782,6 +792,11 @@ def oracle(ctx, case, root, table, overwrite, R, tmpl, payload):
         if changed:
             fail("input-changed", "overwrite=False changed %d object(s) reachable from the document passed in (first: %s)"
                  % (len(changed), R["hpre"][changed[0]]["c"]))
+    if res.startswith("exc:") and any(f.get("net") is False for f in case["files"]):
+        # defect of the optimized HDF5 loader on a file without a network, repaired by fixes/C07-parser-builder-reuse.patch
+        ctx.fail("C17:hdf5-include-without-network", "an included HDF5 file that holds no network could not be read: %s %s"
+                 % (res, R["arg"]), payload)
+        return
     if cl["unreadable"]:
         ctx.count("oracle:include-unreadable(outside property)")
         if res != "SystemExit":
@@ -789,12 +804,17 @@ def oracle(ctx, case, root, table, overwrite, R, tmpl, payload):
         elif full_dump(doc) != R["pre_dump"]:
             fail("input-changed", "document modified although the call stopped at an unreadable include")
         return
-    if cl["dangling"]:
+    if cl["dangling"] or cl["dangling2"]:
+        # a Cell2CaPools (kept in doc.cell2_ca_poolses) is a cell like any other
         ctx.count("oracle:dangling")
+        alld = cl["dangling"] + cl["dangling2"]
         if res != "KeyError":
-            fail("dangling-no-keyerror", "a reference that cannot be resolved did not raise KeyError: %s %s" % (res, R["arg"]))
-        elif R["arg"] not in cl["dangling"]:
-            fail("keyerror-wrong-key", "KeyError for %r which is not a dangling reference %r" % (R["arg"], cl["dangling"]))
+            if not cl["dangling"]:
+                ctx.fail("C17:cell2capools-not-resolved", "a dangling reference of a Cell2CaPools did not raise KeyError: %s" % res, payload)
+            else:
+                fail("dangling-no-keyerror", "a reference that cannot be resolved did not raise KeyError: %s %s" % (res, R["arg"]))
+        elif R["arg"] not in alld:
+            fail("keyerror-wrong-key", "KeyError for %r which is not a dangling reference %r" % (R["arg"], alld))
         return
     if res != "ok":
         fail("unexpected-exception", "every reference is defined but the call raised %s %s" % (res, R["arg"]))
@@ -815,12 +835,12 @@ def oracle(ctx, case, root, table, overwrite, R, tmpl, payload):
         for which, k in (("m", "morphs"), ("b", "bios")):
             for e in fd[k]:
                 cand[which].setdefault(e["id"], []).append(shape(e["obj"]))
-    if len(ret.cells) != len(doc.cells):
+    if len(ret.cells) != len(doc.cells) or len(ret.cell2_ca_poolses) != len(doc.cell2_ca_poolses):
         fail("cell-count", "number of cells changed")
         return
     copies = []      # (cell, which, element)
-    for k, c in enumerate(ret.cells):
-        pc, pm, pb, pma, pba = R["pre_refs"]["cells"][k]
+    for is2, c, (pc, pm, pb, pma, pba) in [(False, c, R["pre_refs"]["cells"][k]) for k, c in enumerate(ret.cells)] + \
+            [(True, c, R["pre_refs"]["cells2"][k]) for k, c in enumerate(ret.cell2_ca_poolses)]:
         if overwrite and c is not pc:
             fail("cell-identity", "cell object replaced")
             return
@@ -839,7 +859,10 @@ def oracle(ctx, case, root, table, overwrite, R, tmpl, payload):
                 continue
             # a reference to resolve
             if e is None:
-                fail("not-embedded", "a referencing cell has no embedded element after the call")
+                if is2:
+                    ctx.fail("C17:cell2capools-not-resolved", "Cell2CaPools reference left unresolved", payload)
+                else:
+                    fail("not-embedded", "a referencing cell has no embedded element after the call")
                 continue
             if a is not None:
                 fail("reference-not-cleared", "the reference attribute was not cleared")
@@ -894,13 +917,6 @@ def oracle(ctx, case, root, table, overwrite, R, tmpl, payload):
             if all_shapes(e) != before:
                 fail("mutation-leaks", "mutating one embedded copy changed another copy or a definition")
                 break
-    # Cell2CaPools (subclass of Cell, kept in doc.cell2_ca_poolses)
-    for k, c in enumerate(ret.cell2_ca_poolses):
-        pc, pm, pb, pma, pba = R["pre_refs"]["cells2"][k]
-        if (pm is None and pma is not None and c.morphology is None) or \
-                (pb is None and pba is not None and c.biophysical_properties is None):
-            ctx.fail("C17:cell2capools-not-resolved", "Cell2CaPools reference left unresolved", payload)
-            break
 
 
 def mutate(e):
@@ -1048,14 +1064,15 @@ def run_cases(ctx, cases, shared_root=False):
             if shared_root:
                 ctx.count("history:step-%d" % len(case.get("_history", [])))
             cl = classify(case, table, R)
-            shared = len(cl["refs"]) - len(set((w, a) for (_, w, a) in cl["refs"]))
-            nontrivial = shared > 0 and not cl["dangling"] and not cl["unreadable"]
+            allrefs = cl["refs"] + cl["refs2"]
+            shared = len(allrefs) - len(set((w, a) for (_, w, a) in allrefs))
+            nontrivial = shared > 0 and not cl["dangling"] and not cl["dangling2"] and not cl["unreadable"]
             ctx.seen({"case": case, "overwrite": overwrite}, nontrivial=nontrivial)
             ctx.count("res:" + R["res"])
             ctx.count("origin:" + case.get("origin", "built"))
             for f in case["files"]:
                 if f["path"].endswith(".h5") and not overwrite:
-                    ctx.count("include-file:hdf5")
+                    ctx.count("include-file:hdf5" + ("" if f.get("net", True) else "(no network)"))
             if not overwrite:
                 allids = [s_["id"] for s_ in case["doc"]["morphs"] + case["doc"]["bios"]] + \
                          [s_["id"] for f in case["files"] for s_ in f["morphs"] + f["bios"]] + \
@@ -1135,7 +1152,7 @@ def run_parse_cases(ctx, cases):
                 tp = {}
                 pre = canon(dsnap(doc), tp)
                 refs = [(c, c.morphology, c.biophysical_properties, c.morphology_attr, c.biophysical_properties_attr)
-                        for c in doc.cells]
+                        for c in list(doc.cells) + list(doc.cell2_ca_poolses)]
                 pre_all = {}
                 walk_ids(doc, pre_all, True)
                 rec = {"doc": doc, "overwrite": overwrite, "pre": pre, "tp": tp, "n_includes": len(doc.includes),
@@ -1194,10 +1211,13 @@ def run_parse_cases(ctx, cases):
             payload = {"case": case, "stream": "parse"}
             dm = set(m.id for m in ref.morphology)
             db = set(b.id for b in ref.biophysical_properties)
-            refs = [(c.id, "m", c.morphology_attr) for c in ref.cells if c.morphology_attr is not None and c.morphology is None] + \
-                   [(c.id, "b", c.biophysical_properties_attr) for c in ref.cells
+            rcells = list(ref.cells) + list(ref.cell2_ca_poolses)      # a Cell2CaPools is a cell like any other
+            refs = [(c.id, "m", c.morphology_attr) for c in rcells if c.morphology_attr is not None and c.morphology is None] + \
+                   [(c.id, "b", c.biophysical_properties_attr) for c in rcells
                     if c.biophysical_properties_attr is not None and c.biophysical_properties is None]
             dangling = [a for (_, wch, a) in refs if a not in (dm if wch == "m" else db)]
+            two_ids = set(c.id for c in ref.cell2_ca_poolses)
+            only2 = bool(dangling) and all(cid in two_ids for (cid, wch, a) in refs if a not in (dm if wch == "m" else db))
             shared = len(refs) - len(set((wch, a) for (_, wch, a) in refs))
             ctx.seen(payload, nontrivial=shared > 0 and not dangling)
             ctx.count("parse:res:" + res)
@@ -1222,7 +1242,8 @@ def run_parse_cases(ctx, cases):
             # oracle
             if dangling:
                 if res != "KeyError" or arg not in dangling:
-                    ctx.fail("C17:parse:dangling-no-keyerror", "parse() of a file with a dangling reference gave %s %s" % (res, arg), payload)
+                    ctx.fail("C17:cell2capools-not-resolved" if (only2 and res == "ok") else "C17:parse:dangling-no-keyerror",
+                             "parse() of a file with a dangling reference gave %s %s" % (res, arg), payload)
                 continue
             if res != "ok":
                 ctx.fail("C17:parse:unexpected-exception", "parse() raised %s %s" % (res, arg), payload)
@@ -1242,12 +1263,15 @@ def run_parse_cases(ctx, cases):
                     elif pa is not None:
                         if e is None or a is not None or e.id != pa:
                             bad = "cell %s not resolved after parse()" % c.id
+                            if type(c).__name__ == "Cell2CaPools":
+                                bad = "Cell2CaPools " + bad
                         elif shape(osnap(e)) not in [shape(osnap(d)) for d in defs if d.id == pa]:
                             bad = "embedded copy differs from every definition"
                         elif getattr(e, "parent_object_", None) not in (None, c):
                             bad = "parent_object_ of the embedded copy is not its cell"
             if bad:
-                ctx.fail("C17:parse:copy-parent" if "parent_object_" in bad else "C17:parse:not-resolved", bad, payload)
+                ctx.fail("C17:parse:copy-parent" if "parent_object_" in bad else
+                         ("C17:cell2capools-not-resolved" if bad.startswith("Cell2CaPools") else "C17:parse:not-resolved"), bad, payload)
                 continue
             sa = {}
             walk_ids(doc, sa, True)
@@ -1257,8 +1281,8 @@ def run_parse_cases(ctx, cases):
                          "whole document per cell; doubles with every cell)" % len(stray), payload)
             # "before walking the network": every cell object the handler was given was resolved already, and it is the
             # cell of the document parse() keeps
-            cell_ids = {id(c): c for c in doc.cells}
-            byname = {c.id: c for c in doc.cells}
+            cell_ids = {id(c): c for c in list(doc.cells) + list(doc.cell2_ca_poolses)}
+            byname = {c.id: c for c in list(doc.cells) + list(doc.cell2_ca_poolses)}
             for (pid, comp, st) in parser.netHandler.pops:
                 if comp not in byname:
                     continue
@@ -1267,7 +1291,8 @@ def run_parse_cases(ctx, cases):
                     ctx.fail("C17:parse:handler-wrong-cell", "the handler was not given the document's cell object for population %s" % pid, payload)
                     break
                 if (st[1] is not None and not st[2]) or (st[3] is not None and not st[4]):
-                    ctx.fail("C17:parse:handler-saw-unresolved-cell", "parse() walked the network before the references of cell %s were resolved" % comp, payload)
+                    ctx.fail("C17:cell2capools-not-resolved" if type(byname[comp]).__name__ == "Cell2CaPools" else
+                             "C17:parse:handler-saw-unresolved-cell", "parse() walked the network before the references of cell %s were resolved" % comp, payload)
                     break
     finally:
         U.fix_external_morphs_biophys_in_cell = orig
@@ -1301,6 +1326,8 @@ def gen_case(rng, big=False, parse=False):
         if not parse and rng.random() < 0.2:
             ext = rng.choice([".nml.h5", ".h5"])              # HDF5 include: read with optimized=True
         f = {"path": "%sinc%d%s" % (d, k, ext), "morphs": [], "bios": [], "includes": []}
+        if ext != ".nml" and rng.random() < 0.4:
+            f["net"] = False                                  # an HDF5 file that holds definitions only
         for j in range(rng.randint(0, 3)):
             f["morphs"].append(gen_elem(rng, "m", rng.choice(def_ids), "file%d.m%d" % (k, j)))
         for j in range(rng.randint(0, 2)):
@@ -1448,6 +1475,11 @@ CORPUS = [
      "cwd": "sub", "origin": "built",
      "doc": {"includes": ["inc0.nml.h5", "../inc1.h5"], "morphs": [], "bios": [],
              "cells": [C("c0", m_attr="m1", b_attr="b1"), C("c1", m_attr="m1")]}},
+    # an included HDF5 file without a network (regression for the loader repair fixes/C07-parser-builder-reuse.patch)
+    {"files": [{"path": "inc0.h5", "net": False, "morphs": [E("m", "m1", "h5nonet")], "bios": [E("b", "b1", "h5nonet")], "includes": []}],
+     "cwd": ".", "origin": "built",
+     "doc": {"includes": ["inc0.h5"], "morphs": [], "bios": [],
+             "cells": [C("c0", m_attr="m1"), C("cc", m_attr="m1", b_attr="b1", kind="Cell2CaPools")]}},
     # ids that are not text: 5 and "5" are different keys in memory, "" and 0 are references (not None), a definition without id
     {"files": [], "cwd": ".", "origin": "built",
      "doc": {"includes": [], "morphs": [E("m", 5, "int"), E("m", "5", "text", nseg=1), E("m", "", "empty", nseg=3), E("m", None, "noid")],
@@ -1477,7 +1509,17 @@ CORPUS = [
     {"files": [], "cwd": ".", "origin": "graph", "graph": {"parents": "defs-only", "def_in_cell": True, "two_cells_one_elem": True},
      "doc": {"includes": [], "morphs": [E("m", "m1", "a")], "bios": [],
              "cells": [C("c0", m_elem=E("m", "own", "own")), C("c1", m_attr="m1"), C("c2")]}},
-    # KNOWN FINDING C17:cell2capools-not-resolved
+    # FIXED (fixes/C17-cell2capools-resolved.patch), regressions: a Cell2CaPools with both references (definitions in an
+    # included file, document read from a file) shares them with a Cell; a dangling reference of a Cell2CaPools raises KeyError
+    {"files": [{"path": "inc0.nml", "morphs": [E("m", "m1", "file")], "bios": [E("b", "b1", "file")], "includes": []}],
+     "cwd": ".", "origin": "loaded",
+     "doc": {"includes": ["inc0.nml"], "morphs": [], "bios": [],
+             "cells": [C("c0", m_attr="m1", b_attr="b1"), C("cc", m_attr="m1", b_attr="b1", kind="Cell2CaPools"),
+                       C("cd", m_elem=E("m", "own", "own"), m_attr="m1", kind="Cell2CaPools")]}},
+    {"files": [], "cwd": ".", "origin": "built",
+     "doc": {"includes": [], "morphs": [E("m", "m1", "local")], "bios": [],
+             "cells": [C("c0", m_attr="m1"), C("cc", m_attr="m1", b_attr="gone", kind="Cell2CaPools")]}},
+    # FIXED (fixes/C17-cell2capools-resolved.patch): a Cell2CaPools is resolved like a Cell (regression: must pass)
     {"files": [], "cwd": ".", "origin": "built",
      "doc": {"includes": [], "morphs": [E("m", "m1", "local")], "bios": [],
              "cells": [C("c0", m_attr="m1"), C("cc", m_attr="m1", kind="Cell2CaPools")]}},
@@ -1512,6 +1554,11 @@ HISTORY_CORPUS = [
 ]
 
 PARSE_CORPUS = [
+    # regression for C17:cell2capools-not-resolved through parse(): the handler is given a resolved Cell2CaPools
+    {"files": [{"path": "sub/inc0.nml", "morphs": [E("m", "m1", "file")], "bios": [E("b", "b1", "file")], "includes": []}],
+     "cwd": ".", "origin": "file",
+     "doc": {"includes": ["sub/inc0.nml"], "morphs": [], "bios": [],
+             "cells": [C("c0", m_attr="m1"), C("cc", m_attr="m1", b_attr="b1", kind="Cell2CaPools")]}},
     # main file includes sub/inc0.nml which includes ../other/nested1.nml: the loader merges both, six cells share m1
     {"files": [{"path": "sub/inc0.nml", "morphs": [E("m", "m1", "file")], "bios": [], "includes": ["../other/nested1.nml"]},
                {"path": "other/nested1.nml", "morphs": [], "bios": [E("b", "b1", "nested")], "includes": []}],
